@@ -1,16 +1,25 @@
 package props
 
 import (
+	"bytes"
+	"image"
 	"image/color"
+	"io"
 	"os"
 	"runtime"
 	"strings"
 	"sync"
 	"sync/atomic"
 
+	"github.com/mandykoh/prism"
+	"github.com/mandykoh/prism/ciexyy"
+	"github.com/mandykoh/prism/ciexyz"
 	"github.com/mandykoh/prism/linear"
+	"github.com/mandykoh/prism/matrix"
+	"github.com/mandykoh/prism/meta/icc"
 
 	"verifharness/internal/core"
+	"verifharness/internal/imggen"
 )
 
 // Fresh-process variants. Lazily built tables and any other process-level
@@ -21,6 +30,10 @@ import (
 //	decfirst   every decode entry point of every space is called before anything else
 //	encfirst   every encode entry point of every space is called before anything else
 //	rev        the spaces are visited in reverse order
+//	warm       every other facility of the library (both table widths of every space, colour
+//	           constructors, image transforms, XYZ, adaptation, Lab, matrices, the loaders and
+//	           the ICC reader) has been used before the property's own workload starts: state
+//	           shared between facilities, or a table preferred "once it exists", shows here
 //
 // (combinable with '+', e.g. "encfirst+rev").
 func applyVariant(variant string) {
@@ -43,6 +56,8 @@ func applyVariant(variant string) {
 				_, _ = s.FromNRGBA(color.NRGBA{R: 1, G: 2, B: 3, A: 255})
 				_ = s.Linearise(color.NRGBA{R: 9, G: 8, B: 7, A: 200})
 			}
+		case "warm":
+			warmEverything()
 		case "encfirst":
 			for _, s := range libSpaces {
 				if s.To16 != nil {
@@ -54,6 +69,85 @@ func applyVariant(variant string) {
 				_ = s.Encode(color.RGBA64{R: 1, G: 2, B: 3, A: 65535})
 			}
 		}
+	}
+}
+
+// warmEverything uses every public facility once, results discarded.
+func warmEverything() {
+	defer func() { _ = recover() }() // a panic here is some other property's finding, not this prelude's
+	xs := []float32{0, 1, 0.5, 0.003, 0.75, 2, -1}
+	img := image.NewNRGBA64(image.Rect(0, 0, 5, 4))
+	for i := range img.Pix {
+		img.Pix[i] = uint8(i*37 + 11)
+	}
+	for _, s := range libSpaces {
+		for _, x := range xs {
+			if s.To16 != nil {
+				_, _ = s.To16(x), s.To8(x)
+			}
+			_ = s.ToRGBA64(linear.RGB{R: x, G: 1 - x, B: x / 2}, 1)
+			_ = s.ToNRGBA(linear.RGB{R: x, G: 1 - x, B: x / 2}, 0.5)
+			_ = s.ToRGBA(linear.RGB{R: x, G: 1 - x, B: x / 2}, 0.25)
+			xyz := s.ToXYZ(linear.RGB{R: x, G: 0.5, B: 1 - x})
+			_ = s.FromXYZ(xyz)
+			lab := xyz.ToLAB(ciexyz.D50)
+			_ = ciexyz.ColorFromLAB(lab, ciexyz.D65)
+		}
+		for _, c := range []uint16{0, 65535, 32768, 32767, 1, 257, 65534} {
+			if s.From16 != nil {
+				_, _ = s.From16(c), s.From8(uint8(c>>8))
+			}
+			_, _ = s.FromEncoded(color.RGBA64{R: c, G: c / 2, B: c / 3, A: 65535})
+			_, _ = s.FromEncoded(color.NRGBA64{R: c, G: c / 2, B: c / 3, A: 40000})
+			_, _ = s.FromLinearC(color.NRGBA64{R: c, G: c / 2, B: c / 3, A: 40000})
+			_, _ = s.FromNRGBA(color.NRGBA{R: uint8(c), G: uint8(c >> 8), B: 3, A: 200})
+			_, _ = s.FromRGBA(color.RGBA{R: uint8(c >> 9), G: uint8(c >> 10), B: 3, A: 200})
+			_ = s.Linearise(color.NRGBA64{R: c, G: c, B: 7, A: 65535})
+			_ = s.Encode(color.NRGBA64{R: c, G: c, B: 7, A: 65535})
+		}
+		for _, par := range []int{1, 3} {
+			s.LineariseImage(image.NewRGBA64(img.Rect), img, par)
+			s.EncodeImage(image.NewNRGBA(img.Rect), img, par)
+			s.EncodeImage(image.NewRGBA64(img.Rect), img, par)
+		}
+		_ = ciexyz.TransformFromXYZForXYYPrimaries(s.PR(), s.PG(), s.PB(), s.White())
+		_ = ciexyz.TransformToXYZForXYYPrimaries(s.PR(), s.PG(), s.PB(), s.White())
+	}
+	for _, w := range [][2]ciexyz.Color{{ciexyz.D50, ciexyz.D65}, {ciexyz.D65, ciexyz.D50}, {ciexyz.D65, {X: 1.09, Y: 1, Z: 0.35}}} {
+		ad := ciexyz.AdaptBetweenXYZWhitePoints(w[0], w[1])
+		_ = ad.Apply(ciexyz.Color{X: 0.3, Y: 0.4, Z: 0.5})
+	}
+	_ = ciexyz.AdaptBetweenXYYWhitePoints(ciexyy.D50, ciexyy.D65).Apply(ciexyz.D50)
+	m := matrix.Matrix3{{2, 1, 0}, {1, 3, 1}, {0, 1, 4}}
+	_ = m.Inverse().MulM(m).Transpose().MulV(matrix.Vector3{1, 2, 3})
+	_ = prism.ConvertImageToNRGBA(img, 2)
+	_ = prism.ConvertImageToRGBA(img, 2)
+	_ = prism.ConvertImageToRGBA64(img, 2)
+	// the loaders and the profile reader, on one small well-formed file of each format
+	rg := core.NewRNG(7, "warm")
+	prof := structuredProfile(rg, 2)
+	pb, _ := imggen.PNGSpec{W: 3, H: 2, Depth: 8, ColorType: 2, ICC: &imggen.PNGICC{Name: "w", Profile: prof, Level: 6}, IDAT: []byte{1}}.Build()
+	var segs []imggen.JPEGSeg
+	for i, part := range imggen.SplitICC(prof, 2) {
+		segs = append(segs, imggen.ICCChunkSeg(i+1, 2, part))
+	}
+	jb, _ := imggen.JPEGSpec{Precision: 8, W: 3, H: 2, Comps: imggen.StdComps(1, 1, 1), Before: segs}.Build()
+	wb, _ := imggen.WebPSpec{Kind: "VP8X", W: 3, H: 2, ICC: prof, Payload: []byte{1, 2}}.Build()
+	for _, b := range [][]byte{pb, jb, wb} {
+		for _, l := range []string{"auto", "png", "jpeg", "webp"} {
+			res := loadWith(l, bytes.NewReader(b))
+			if res.MD != nil {
+				if p, err := res.MD.ICCProfile(); err == nil && p != nil {
+					_, _ = p.Description()
+				}
+			}
+			if res.Stream != nil {
+				_, _ = io.Copy(io.Discard, res.Stream)
+			}
+		}
+	}
+	if p, err := icc.NewProfileReader(bytes.NewReader(prof)).ReadProfile(); err == nil {
+		_, _ = p.Description()
 	}
 }
 
@@ -122,7 +216,20 @@ func firstUseBurst(n int, stagger bool, f func(g int)) {
 
 // burstVariants are the fresh-process children that exist only to put the very first use of the
 // library's lazily built state under contention, many times, with different degrees of parallelism.
-var burstVariants = []string{"burst@2", "burst+stagger@2", "burst@4", "burst+stagger@4", "burst@16", "burst+stagger@16", "burst+stagger@3", "burst@8"}
+var burstVariants = []string{"burst@2", "burst+stagger@2", "burst@4", "burst+stagger@4", "burst@16", "burst+stagger@16", "burst+stagger@3", "burst@8", "burst+fine5@8", "burst+fine40@16", "burst+fine200@4", "burst+fine15@16"}
+
+// firstUseAuto releases n goroutines into f in the way the variant asks for: nanosecond-spaced
+// arrivals ("fine<k>"), microsecond-spaced ("stagger", also the plain run), or all at once.
+func firstUseAuto(variant string, n int, f func(g int)) {
+	switch {
+	case fineStep(variant) > 0:
+		firstUseFine(n, fineStep(variant), f)
+	case strings.Contains(variant, "stagger") || variant == "":
+		firstUseBurst(n, true, f)
+	default:
+		firstUsePhases(n, 1, func(g, ph int) { f(g) })
+	}
+}
 
 func isBurst(variant string) bool { return strings.HasPrefix(variant, "burst") }
 
@@ -145,4 +252,50 @@ func firstUsePhases(n, phases int, f func(g, phase int)) {
 		}(g)
 	}
 	wg.Wait()
+}
+
+var fineSink atomic.Int64
+
+// firstUseFine releases n goroutines from a spin barrier and delays goroutine g by g*step
+// iterations of an empty loop (about a nanosecond each) before it calls f: arrivals spread over
+// tens to hundreds of nanoseconds, the time a first caller spends inside a lazy initialiser.
+func firstUseFine(n, step int, f func(g int)) {
+	var arrive atomic.Int32
+	var wg sync.WaitGroup
+	yield := runtime.GOMAXPROCS(0) < n
+	for g := 0; g < n; g++ {
+		wg.Add(1)
+		go func(g int) {
+			defer wg.Done()
+			arrive.Add(1)
+			for int(arrive.Load()) < n {
+				if yield {
+					runtime.Gosched()
+				}
+			}
+			x := 0
+			for i := 0; i < g*step; i++ {
+				x += i ^ g
+			}
+			fineSink.Add(int64(x & 1))
+			f(g)
+		}(g)
+	}
+	wg.Wait()
+}
+
+// fineStep extracts k from a "...+fine<k>..." variant (0 when absent).
+func fineStep(variant string) int {
+	i := strings.Index(variant, "fine")
+	if i < 0 {
+		return 0
+	}
+	k := 0
+	for _, c := range variant[i+4:] {
+		if c < '0' || c > '9' {
+			break
+		}
+		k = k*10 + int(c-'0')
+	}
+	return k
 }
